@@ -63,6 +63,14 @@ def _redshift_histogram(patch: Patch, binning: Binning) -> NDArray:
     return counts.astype(np.float64)
 
 
+def _patch_histogram(
+    patch_id: int, patch: Patch, binning: Binning
+) -> tuple[int, NDArray]:
+    """Worker function that computes the redshift histgram of a patch and
+    returns it together with the patch ID."""
+    return patch_id, _redshift_histogram(patch, binning)
+
+
 def resample_jackknife(observations: NDArray, patch_rows: bool = True) -> NDArray:
     """
     Compute jackknife samples from an array of histogram counts with shape
@@ -137,17 +145,20 @@ class HistData(CorrData):
             config = config.binning
 
         patch_count_iter = parallel.iter_unordered(
-            _redshift_histogram,
-            catalog.values(),
+            _patch_histogram,
+            catalog.items(),
             func_kwargs=dict(binning=config.binning),
+            unpack=True,
             max_workers=max_workers,
         )
         if progress:
             patch_count_iter = Indicator(patch_count_iter, len(catalog))
 
+        # results arrive in arbitrary order, rows must follow the patch order
+        row_index = {patch_id: i for i, patch_id in enumerate(catalog.keys())}
         counts = np.empty((len(catalog), config.num_bins))
-        for i, patch_count in enumerate(patch_count_iter):
-            counts[i] = patch_count
+        for patch_id, patch_count in patch_count_iter:
+            counts[row_index[patch_id]] = patch_count
         parallel.COMM.Bcast(counts, root=0)
 
         return cls(
